@@ -669,12 +669,32 @@ def c19_corrupt(d):
     return False
 
 
+def tlaps_quorum(w):
+    """the four lemmas for every n: TLAPS proof (SMT back end), re-checked on every run"""
+    d = os.path.join(w.dir, "tlaps")
+    os.makedirs(d, exist_ok=True)
+    shutil.copy(os.path.join(vlib.SPEC, "QuorumProof.tla"), d)
+    try:
+        p = vlib.sh(["tlapm", "--threads", "8", "--cleanfp", "QuorumProof.tla"], cwd=d, timeout=900, check=False)
+    except Exception as e:
+        raise Infra("tlapm could not be run: %s" % e)
+    out = p.stdout or ""
+    import re as _re
+    m = _re.search(r"All (\d+) obligations? proved", out)
+    if not m:
+        raise Infra("TLAPS proof of the quorum lemmas did not go through:\n%s" % out[-2000:])
+    log("  tlaps QuorumProof.tla: all %s obligations proved (lemmas hold for every n)" % m.group(1))
+    return {"module": "QuorumProof.tla", "obligations_proved": int(m.group(1)),
+            "theorems": ["SuperMajorityIsLeastAboveTwoThirds", "TrustThreshold", "Intersection", "HonestMajority"]}
+
+
 def plan_C19(w):
     known = vlib.load_known()
     r = w.model_check("quorum", "MC_quorum.cfg", module="Quorum.tla", workers=8, timeout=600)
     log("  mc quorum: distinct=%s (one state per n, n = 1..100000) %s" % (r.get("distinct"), "complete" if r.get("complete") else "INCOMPLETE"))
     if not r.get("complete"):
         raise Infra("Quorum.tla model checking did not complete: %s" % r.get("raw_tail"))
+    tlaps = tlaps_quorum(w)
     tr, sm = w.drive("quorum", "quorum", ["-seed", w.seed, "-steps", 40 if Q(w) else 400])
     tv = w.validate(tr)
     violations, known_hits, drift = judge(w, "C19", [tv], known)
@@ -682,12 +702,12 @@ def plan_C19(w):
     if not violations:
         st = selftest(w, "C19", tr, c19_corrupt, "SuperMajority reported for n=7 increased by one")
     rows = tv["stats"].get("inserts", 0)
-    extra = {"selftest": st, "exhaustive": True,
+    extra = {"selftest": st, "exhaustive": True, "tlaps": tlaps,
              "rows_tabulated_from_real_code": rows,
              "explanation": "exhaustive over n = 1..100000 both in the TLA+ model (Quorum.tla, 4 lemmas per n) and on values tabulated from the real PeerSet; plus sets built by seeded add/remove sequences and SetAnchorBlock/CheckBlock acceptance for n = 1..10, k = 0..n real signatures"}
     return conclude(w, "C19", [sm], violations, known_hits, drift, extra=extra, min_blocks=0,
                     samples=[{"n": 7, "SuperMajority": 5, "TrustCount": 3}, {"n": 100000, "SuperMajority": 66667, "TrustCount": 33334}],
-                    assumptions=["beyond n = 100000 nothing is claimed by this check"])
+                    assumptions=["beyond n = 100000 the lemmas rest on the TLAPS proof of QuorumProof.tla (same definitions as BabbleBase.tla; re-checked by tlapm in every run) - the code's thresholds are compared with those definitions for n <= 100000 and for sets built by additions and removals"])
 
 
 # ------------------------------------------------------------------ C11 / C16 (persist mode)
